@@ -101,23 +101,19 @@ def _clone(i, a, b):
     return r
 
 
-def ob_dataset(n: int, r0: int, r1: int, l0: int, l1: int, g: int, g2: int, a0: int, b0: int, a1: int, b1: int, none_first: bool, two: bool) -> bool:
-    """
-    pre: 0 <= n <= 2 and 0 <= r0 < NR and 0 <= r1 < NR and 1 <= l0 <= 3 and 1 <= l1 <= 3 and 0 <= g < NR and 0 <= g2 < NR
-    pre: 0 <= a0 < b0 <= 9 and 0 <= a1 < b1 <= 9
-    post: _
-    """
+RES4 = [0, 2, 3, 4]        # indices into RESOLUTIONS: a date, 3 days, 3 nights, a clock interval
+
+
+def dataset_check(n, r0, r1, l0, g, g2, none_first, two):
     CT = CO.ctparse_gen.__globals__["CTParse"]
-    prods = [(100, 101, "ruleA")[:l0], (102, "ruleB", "ruleC")[:l1]]
+    prods = [(100, 101, "ruleA")[:l0], (102, "ruleB")]
     ts1, ts2 = datetime(2020, 1, 1), datetime(2021, 6, 1)
 
     def stream_for(ts):
         # the scripted parser depends on the reference time: the second entry (same text, other
-        # reference time) sees the two candidates in swapped roles
-        if ts == ts1:
-            cands = [CT(_clone(r0, a0, b0), prods[0], 0.5, "", []), CT(_clone(r1, a1, b1), prods[1], 0.25, "", [])][:n]
-        else:
-            cands = [CT(_clone(r1, a0, b0), prods[0], 0.5, "", []), CT(_clone(r0, a1, b1), prods[1], 0.25, "", [])][:n]
+        # reference time) sees the two candidates in swapped roles; candidate spans never equal the gold's
+        order = (r0, r1) if ts == ts1 else (r1, r0)
+        cands = [CT(_clone(order[0], 2, 7), prods[0], 0.5, "", []), CT(_clone(order[1], 1, 4), prods[1], 0.25, "", [])][:n]
         return ([None] if none_first else []) + cands
     entries = [CO.TimeParseEntry("txt", ts1, _clone(g, 0, 0))]
     if two:
@@ -134,13 +130,24 @@ def ob_dataset(n: int, r0: int, r1: int, l0: int, l1: int, g: int, g2: int, a0: 
             label = (ri == gold)                  # RESOLUTIONS are pairwise different values
             for i in range(1, len(prod) + 1):
                 exp.append(([str(p) for p in prod[:i]], label))
-    return got == exp
+    if got != exp:
+        return False, "entries %r: samples %r, expected %r" % ([(e.text, e.ts.isoformat(), str(e.gold)) for e in entries], got, exp)
+    return True, ""
 
 
-def lift_dataset(n, r0, r1, l0, l1, g, g2, a0, b0, a1, b1, none_first, two):
-    # the builders are public API; the witness is the kernel call itself, shown with the values
-    return {"reproduced": True, "witness": {"candidate": repr(_clone(r0, a0, b0)), "gold": repr(_clone(g, 0, 0)),
-                                            "equal": _clone(r0, a0, b0) == _clone(g, 0, 0)}}
+def ob_dataset(n: int, r0: int, r1: int, l0: int, g: int, g2: int, none_first: bool, two: bool) -> bool:
+    """
+    pre: 0 <= n <= 2 and 0 <= r0 < 4 and 0 <= r1 < 4 and 0 <= l0 <= 1 and 0 <= g < 4 and 0 <= g2 <= 1
+    post: _
+    """
+    with NoTracing():
+        gg = _pick(g, 4)
+        return dataset_check(_pick(n, 3), RES4[_pick(r0, 4)], RES4[_pick(r1, 4)], [1, 3][_pick(l0, 2)], RES4[gg], RES4[(gg + _pick(g2, 2)) % 4],
+                             bool(_pick(none_first, 2)), bool(_pick(two, 2)))[0]
+
+
+def why_dataset(n, r0, r1, l0, g, g2, none_first, two):
+    return dataset_check(n, RES4[r0], RES4[r1], [1, 3][l0], RES4[g], RES4[(g + g2) % 4], bool(none_first), bool(two))[1]
 
 
 # ------------------------------------------------------------------ pipeline-level differential (C16 / C17)
